@@ -561,3 +561,4 @@ for _f in ('sp_dsymv', 'sp_zsymv'):
                  'externs': dict(_B.LOCAL_EXTERNS,
                                  **{'read:spbuf': read_spbuf}),
                  'config': {}}
+
